@@ -3059,10 +3059,24 @@ GRreadimage(int32 riid, int32 start[2], int32 in_stride[2], int32 count[2], void
     else {
         /* Check if the actual image data is in the file yet, or if just the
            tag & ref are known */
-        if (Hlength(hdf_file_id, ri_ptr->img_tag, ri_ptr->img_ref) > 0)
+        int32 img_len = Hlength(hdf_file_id, ri_ptr->img_tag, ri_ptr->img_ref);
+
+        if (img_len > 0)
             image_data = TRUE;
-        else
+        else {
+            /* an element that is in the file with a length, but whose length
+               cannot be obtained (its special header could not be read), is
+               an error, not an image without data to be faked by fill values */
+            uint16 f_tag = 0, f_ref = 0;
+            int32  f_off = 0, f_len = 0;
+
+            if (img_len == FAIL &&
+                Hfind(hdf_file_id, ri_ptr->img_tag, ri_ptr->img_ref, &f_tag, &f_ref, &f_off, &f_len,
+                      DF_FORWARD) == SUCCEED &&
+                f_len > 0)
+                HGOTO_ERROR(DFE_READERROR, FAIL);
             image_data = FALSE;
+        }
     } /* end else */
 
     if (image_data == FALSE) { /* Fake an image for the user by using the pixel fill value */
